@@ -391,6 +391,38 @@ func valueCase(c *runner.Ctx, i int, m valMode) {
 				} else if !cqlref.EqualVal(t, canon(t, blurNil(df, t, got), proto), canon(t, blurNil(df, t, v), proto)) {
 					bad = fmt.Sprintf("decoded %s, want %s", got.String(t), v.String(t))
 				}
+				if bad == "" && m == modeC02 && (i+k)%3 == 0 {
+					// the same destination again, after it held another value of the type: what a loop over rows does.
+					// Decoding must not depend on what the destination held before.
+					v0 := gen.Value(r, t, opts)
+					if b0, e0 := cqlref.EncodeValue(t, v0, proto); e0 == nil {
+						if _, okb := build(df, v0); okb {
+							dst2 := reflect.New(df.goType())
+							if err0, pan0 := safeUnmarshal(ti, b0, dst2.Interface()); err0 == nil && pan0 == nil {
+								c.Add("reused_destinations", 1)
+								err2, pan2 := safeUnmarshal(ti, s.b, dst2.Interface())
+								switch {
+								case pan2 != nil:
+									bad = fmt.Sprintf("Unmarshal into a destination that held %s panicked: %v", v0.String(t), pan2)
+								case err2 != nil:
+									bad = fmt.Sprintf("Unmarshal into a destination that held %s failed: %v", v0.String(t), err2)
+								default:
+									if got, rerr := readGo(df, dst2.Elem()); rerr != nil {
+										bad = "decoded Go value (reused destination) is not a valid representation: " + rerr.Error()
+									} else if !cqlref.EqualVal(t, canon(t, blurNil(df, t, got), proto), canon(t, blurNil(df, t, v), proto)) {
+										bad = fmt.Sprintf("decoded %s into a destination that held %s before, want %s", got.String(t), v0.String(t), v.String(t))
+									}
+								}
+								if bad != "" {
+									bt, bsf, bdf, bc := blameRoundTrip(t, sf, df, v, proto)
+									_ = bsf
+									c.Violation(fmt.Sprintf("C02:reused-destination:%s:%s:%s", bt, bdf, bc), "Unmarshal gives a different value when the destination held another value before: "+bad, wit(fmt.Sprintf("target %s, bytes %x", df, clip(s.b))))
+									continue
+								}
+							}
+						}
+					}
+				}
 				if bad == "" {
 					continue
 				}
